@@ -532,53 +532,56 @@ func (p *pep440Extension) compare(e extension) int {
 		return 0
 	}
 
-	// We have the same numbers. We now compare attachments. Their order is:
-	//	devN aN bN rcN <empty> postN
-	// and within each item, ordered by N. Also, a dev can appear along with
-	// any other. If one version has a higher rank than the other, that determines
-	// their ordering.
-	pRank := pExt.rank()
-	qRank := qExt.rank()
-	if pRank != qRank {
-		return sgn(pRank, qRank)
+	// We have the same numbers. The attachments are ordered as PEP 440
+	// specifies (see packaging's _cmpkey): by pre-release, then post-release,
+	// then dev-release, then local version label.
+	if s := sgn(pExt.preRank(), qExt.preRank()); s != 0 {
+		return s
 	}
-
-	// Same rank, so now we must look at the contents of the extension.
-	switch pRank {
-	case pep440Alpha, pep440Beta, pep440Prerelease:
-		if s := sgn(pExt.preNum, qExt.preNum); s != 0 {
-			return s
-		}
-		fallthrough
-	case pep440Local:
-		if s := pep44CompareLocal(pExt.local, qExt.local); s != 0 {
-			return s
-		}
-		fallthrough
-	case pep440Post:
-		if s := sgn(pExt.postNum, qExt.postNum); s != 0 {
-			return s
-		}
+	if s := sgn(pExt.preNum, qExt.preNum); s != 0 {
+		return s
 	}
-
-	// Dev can attach to anything (although we've never seen one on a post).
-	if pExt.devPresent || qExt.devPresent {
-		if pExt.devPresent != qExt.devPresent {
-			if pExt.devPresent {
-				return -1 // Dev is before pre, empty, or post.
-			}
-			return 1
+	// No post-release sorts before any post-release.
+	if pExt.postPresent != qExt.postPresent {
+		if qExt.postPresent {
+			return -1
 		}
-		if s := sgn(pExt.devNum, qExt.devNum); s != 0 {
-			return s
-		}
+		return 1
 	}
-
-	return 0
+	if s := sgn(pExt.postNum, qExt.postNum); s != 0 {
+		return s
+	}
+	// A dev-release sorts before the same version without one.
+	if pExt.devPresent != qExt.devPresent {
+		if pExt.devPresent {
+			return -1
+		}
+		return 1
+	}
+	if s := sgn(pExt.devNum, qExt.devNum); s != 0 {
+		return s
+	}
+	// No local label sorts before any local label.
+	return pep44CompareLocal(pExt.local, qExt.local)
 }
 
-// pep440CompareLocal compares the local strings elementwise.
-// Some of this could be done up front, but they are very rare.
+// preRank orders the pre-release part: a dev-release of a final release
+// (1.0.dev1) sorts before every pre-release of it, then aN < bN < rcN < none.
+func (p *pep440) preRank() int {
+	switch p.pre {
+	case "a":
+		return 1
+	case "b":
+		return 2
+	case "rc":
+		return 3
+	}
+	if !p.postPresent && p.devPresent {
+		return 0
+	}
+	return 4
+}
+
 func pep44CompareLocal(pl, ql string) int {
 	if pl == ql {
 		return 0
